@@ -254,8 +254,8 @@ def run_softmax(ctx, t, case, rng):
 
 def run(ctx):
     rng = ctx.rng(1)
-    nrep = 12 if ctx.tier == "quick" else 100
-    npts = 120 if ctx.tier == "quick" else 800
+    nrep = 12 if ctx.tier == "quick" else 300
+    npts = 120 if ctx.tier == "quick" else 2000
     for it0 in range(nrep):
         it = it0 * ctx.nshards + ctx.shard
         for name in tr.CLASSES:
